@@ -5,6 +5,8 @@ import Goyang.Lemmas.Find
 import Goyang.Lemmas.AugmentErrsBridge
 import Goyang.Props.C07
 import Goyang.Props.C04
+import Goyang.Props.C02
+import Goyang.Lemmas.AugPosLoad
 /-
 C07, bridge to `processAll` — the hypotheses `PhaseInput` and `NoDupNames` of Props/C07.lean are
 discharged for the state with which `processAll` really enters the augment phase.
@@ -423,6 +425,161 @@ theorem augment_error_list_order_independent_processAll (reg : Registry) (opts :
   exact C07.augment_loop_confluent_errors_observed (Res.ofReg reg) fuel fuel2 order.toArray mods2 s s2 hforest hpend
     hin.nodup hn2 hcov hcov2 hfuel hfuel2 hids hku hb hfree
 
+/-! ### `AugPosDistinct` derived: registries loaded from texts
+
+`Model.loadTexts` is `Modules.Parse` per text (generic parser, AST builder, top-level check,
+`Registry.add`).  For texts that are UTF-8 encodings of Unicode texts without the four constructs C02
+leaves outside its claim (`AdmissibleTexts`; the refinement of the byte-level parser to the reference
+reader is proved for those only) the predicate is a theorem: in the reference reader the tokens of a
+text start at strictly increasing offsets, sibling statements stand at the offsets of a sublist of
+them, and offset ↦ (line, col) is injective inside one text (`Lemmas/AugPosSpec.lean`); the
+conversion to resolver statements and `Registry.add` keep the statements (`Lemmas/AugPosLoad.lean`).
+The `_processAll` theorems are restated below for such registries with `AugArgsPlain` as the only
+hypothesis on the input. -/
+
+/-- Two different character offsets of one text (up to its end) have different (line, col). -/
+theorem offset_position_injective (text : List Char) (a b : Nat) (hab : a < b) (hb : b ≤ text.length) :
+    (Spec.Parse.lineOf text a, Spec.Parse.colOf text a) ≠ (Spec.Parse.lineOf text b, Spec.Parse.colOf text b) :=
+  Lemmas.AugPosSpec.pos_ne_of_lt text a b hab hb
+
+/-- The tokens of the reference reader start at strictly increasing offsets. -/
+theorem token_offsets_increase (text : List Char) (toks : List Spec.Parse.PTok)
+    (h : Spec.Parse.tokenize text = some toks) : toks.Pairwise (fun a b => a.off < b.off) :=
+  Lemmas.AugPosSpec.tokenize_sorted text toks h
+
+/-- **Sibling statements of a parsed text stand at different positions** (reference reader): the
+top-level statements have pairwise different (line, col), and so have the substatements of every
+statement of the forest, at any depth (`SibDistinct`). -/
+theorem sibling_positions_distinct (text : List Char) (forest : List Spec.Parse.Stmt)
+    (h : Spec.Parse.parse text = some forest) :
+    (forest.map fun s => (s.line, s.col)).Nodup ∧ ∀ s ∈ forest, Lemmas.AugPosSpec.SibDistinct s :=
+  Lemmas.AugPosSpec.parse_sibDistinct text forest h
+
+/-- The texts handed to `loadTexts` are UTF-8 encodings (core Lean's encoder, `Props.C02.utf8`) of
+Unicode texts without the four constructs C02 excludes. -/
+def AdmissibleTexts (texts : List (List UInt8 × List UInt8)) : Prop :=
+  ∀ nt ∈ texts, ∃ t : List Char, nt.2 = Goyang.Props.C02.utf8 t ∧ Spec.Parse.Admissible t = true
+
+/-- **`AugPosDistinct` holds of every registry loaded from C02-admissible texts**, whichever of them
+are accepted or rejected. -/
+theorem augPosDistinct_of_loadTexts (texts : List (List UInt8 × List UInt8)) (hadm : AdmissibleTexts texts) :
+    AugPosDistinct (loadTexts texts).1 := by
+  refine Lemmas.AugPosLoad.augPosDistinct_loadTexts texts ?_
+  intro nt hnt
+  obtain ⟨t, e, ha⟩ := hadm nt hnt
+  exact ⟨t, by rw [e, Goyang.Props.C02.utf8_eq], ha⟩
+
+/-- the registry `Modules.Parse` builds from the texts, in order -/
+abbrev loaded (texts : List (List UInt8 × List UInt8)) : Registry := (loadTexts texts).1
+
+/-- `PhaseInput` for registries loaded from admissible texts: `AugArgsPlain` is the only hypothesis left. -/
+theorem phaseInput_holds_texts (texts : List (List UInt8 × List UInt8)) (hadm : AdmissibleTexts texts)
+    (opts : Opts) (plug : Plug) (hplain : AugArgsPlain (loaded texts))
+    (s : PState) (order : List Nat) (h : phaseStart (loaded texts) opts plug = some (s, order)) :
+    PhaseInput (loaded texts) s :=
+  phaseInput_holds _ opts plug (loadedShape_loadTexts texts) (augPosDistinct_of_loadTexts texts hadm) hplain s order h
+
+/-- `augment_reported_processAll` ((f) "… or reported") for registries loaded from admissible texts. -/
+theorem augment_reported_loadTexts (texts : List (List UInt8 × List UInt8)) (hadm : AdmissibleTexts texts)
+    (opts : Opts) (plug : Plug) (hplain : AugArgsPlain (loaded texts)) :
+    (phaseStart (loaded texts) opts plug = none →
+      ∃ errs, errs ≠ [] ∧ (processAll (loaded texts) opts plug).errors = canonErrs errs) ∧
+    (∀ s order, phaseStart (loaded texts) opts plug = some (s, order) → allErrs s.forest = [] ∧
+      (let fuel := s.pending.foldl (fun n p => n + p.2.length) 0 + 2
+       let ph := phaseR (Res.ofReg (loaded texts)) order fuel s
+       (∀ id, ∀ a ∈ s.pendingOf id,
+         (id, a) ∈ ph.2.1.map Ev.key ∨ (id, a) ∈ ph.2.2.map Ev.key ∨ (processAll (loaded texts) opts plug).errors ≠ []) ∧
+       (∀ ev ∈ ph.2.1,
+         (¬ (absEv (Res.ofReg (loaded texts)) s.forest ev).roots.Nodup ∨
+           (absEv (Res.ofReg (loaded texts)) s.forest ev).Collides (viewOf ev.before)) →
+         (processAll (loaded texts) opts plug).errors ≠ []))) :=
+  augment_reported_processAll _ opts plug (loadedShape_loadTexts texts) (augPosDistinct_of_loadTexts texts hadm) hplain
+
+/-- `clean_process_applied_all` for registries loaded from admissible texts. -/
+theorem clean_process_applied_all_loadTexts (texts : List (List UInt8 × List UInt8)) (hadm : AdmissibleTexts texts)
+    (opts : Opts) (plug : Plug) (hplain : AugArgsPlain (loaded texts))
+    (hclean : (processAll (loaded texts) opts plug).errors = []) :
+    ∃ s order, phaseStart (loaded texts) opts plug = some (s, order) ∧
+      (let fuel := s.pending.foldl (fun n p => n + p.2.length) 0 + 2
+       let ph := phaseR (Res.ofReg (loaded texts)) order fuel s
+       (∀ id, ∀ a ∈ s.pendingOf id, (id, a) ∈ ph.2.1.map Ev.key ∨ (id, a) ∈ ph.2.2.map Ev.key) ∧
+       (∀ ev ∈ ph.2.1, (absEv (Res.ofReg (loaded texts)) s.forest ev).roots.Nodup ∧
+         ¬ (absEv (Res.ofReg (loaded texts)) s.forest ev).Collides (viewOf ev.before))) :=
+  clean_process_applied_all _ opts plug (loadedShape_loadTexts texts) (augPosDistinct_of_loadTexts texts hadm) hplain hclean
+
+/-- `augment_exactly_once_processAll` ((e)) for registries loaded from admissible texts. -/
+theorem augment_exactly_once_loadTexts (texts : List (List UInt8 × List UInt8)) (hadm : AdmissibleTexts texts)
+    (opts : Opts) (plug : Plug) (hplain : AugArgsPlain (loaded texts)) (s : PState) (order : List Nat)
+    (h : phaseStart (loaded texts) opts plug = some (s, order)) :
+    let fuel := s.pending.foldl (fun n p => n + p.2.length) 0 + 2
+    ∀ id, ∀ a ∈ s.pendingOf id,
+      (a ∉ (augmentLoop (loaded texts) fuel order.toArray s).2.pendingOf id ↔
+        (absAug (Res.ofReg (loaded texts)) s.forest id a).Applicable
+          (viewOf (augmentLoop (loaded texts) fuel order.toArray s).2.forest)) :=
+  augment_exactly_once_processAll _ opts plug (loadedShape_loadTexts texts) (augPosDistinct_of_loadTexts texts hadm)
+    hplain s order h
+
+/-- `augment_loop_confluent_processAll` ((d)) for registries loaded from admissible texts. -/
+theorem augment_loop_confluent_loadTexts (texts : List (List UInt8 × List UInt8)) (hadm : AdmissibleTexts texts)
+    (opts : Opts) (plug : Plug) (hplain : AugArgsPlain (loaded texts)) (s : PState) (order : List Nat)
+    (h : phaseStart (loaded texts) opts plug = some (s, order))
+    (fuel2 : Nat) (mods2 : Array Nat) (s2 : PState)
+    (hforest : s2.forest = s.forest) (hpend : ∀ id a, a ∈ s2.pendingOf id ↔ a ∈ s.pendingOf id)
+    (hn2 : NodupPending s2) (hcov2 : Cover s2 mods2) (hfuel2 : mu s2 < fuel2) :
+    let fuel := s.pending.foldl (fun n p => n + p.2.length) 0 + 2
+    (∀ er, FVisErr (augmentLoop (loaded texts) fuel order.toArray s).2.forest er → er.cls ≠ "duplicate-node") →
+    viewOf (augmentLoop (loaded texts) fuel2 mods2 s2).2.forest =
+      viewOf (augmentLoop (loaded texts) fuel order.toArray s).2.forest ∧
+    (∀ id a, a ∈ (augmentLoop (loaded texts) fuel2 mods2 s2).2.pendingOf id ↔
+      a ∈ (augmentLoop (loaded texts) fuel order.toArray s).2.pendingOf id) :=
+  augment_loop_confluent_processAll _ opts plug (loadedShape_loadTexts texts) (augPosDistinct_of_loadTexts texts hadm)
+    hplain s order h fuel2 mods2 s2 hforest hpend hn2 hcov2 hfuel2
+
+/-- `augment_order_independent_processAll` for registries loaded from admissible texts. -/
+theorem augment_order_independent_loadTexts (texts : List (List UInt8 × List UInt8)) (hadm : AdmissibleTexts texts)
+    (opts : Opts) (plug : Plug) (hplain : AugArgsPlain (loaded texts)) (s : PState) (order : List Nat)
+    (h : phaseStart (loaded texts) opts plug = some (s, order)) (fuel2 : Nat) (mods2 : Array Nat)
+    (hcov2 : Cover s mods2) (hfuel2 : mu s < fuel2) :
+    let fuel := s.pending.foldl (fun n p => n + p.2.length) 0 + 2
+    (∀ er, FVisErr (augmentLoop (loaded texts) fuel order.toArray s).2.forest er → er.cls ≠ "duplicate-node") →
+    viewOf (augmentLoop (loaded texts) fuel2 mods2 s).2.forest =
+      viewOf (augmentLoop (loaded texts) fuel order.toArray s).2.forest ∧
+    (∀ id a, a ∈ (augmentLoop (loaded texts) fuel2 mods2 s).2.pendingOf id ↔
+      a ∈ (augmentLoop (loaded texts) fuel order.toArray s).2.pendingOf id) :=
+  augment_order_independent_processAll _ opts plug (loadedShape_loadTexts texts) (augPosDistinct_of_loadTexts texts hadm)
+    hplain s order h fuel2 mods2 hcov2 hfuel2
+
+/-- `augment_clean_iff_processAll` ((d′)) for registries loaded from admissible texts. -/
+theorem augment_clean_iff_loadTexts (texts : List (List UInt8 × List UInt8)) (hadm : AdmissibleTexts texts)
+    (opts : Opts) (plug : Plug) (hplain : AugArgsPlain (loaded texts)) (s : PState) (order : List Nat)
+    (h : phaseStart (loaded texts) opts plug = some (s, order))
+    (fuel2 : Nat) (mods2 : Array Nat) (s2 : PState)
+    (hforest : s2.forest = s.forest) (hpend : ∀ id a, a ∈ s2.pendingOf id ↔ a ∈ s.pendingOf id)
+    (hn2 : NodupPending s2) (hcov2 : Cover s2 mods2) (hfuel2 : mu s2 < fuel2) :
+    let fuel := s.pending.foldl (fun n p => n + p.2.length) 0 + 2
+    allErrs (augmentLoop (loaded texts) fuel order.toArray s).2.forest = [] ↔
+      allErrs (augmentLoop (loaded texts) fuel2 mods2 s2).2.forest = [] :=
+  augment_clean_iff_processAll _ opts plug (loadedShape_loadTexts texts) (augPosDistinct_of_loadTexts texts hadm)
+    hplain s order h fuel2 mods2 s2 hforest hpend hn2 hcov2 hfuel2
+
+/-- `augment_error_list_order_independent_processAll` ((d′)) for registries loaded from admissible texts. -/
+theorem augment_error_list_order_independent_loadTexts (texts : List (List UInt8 × List UInt8))
+    (hadm : AdmissibleTexts texts) (opts : Opts) (plug : Plug) (hplain : AugArgsPlain (loaded texts))
+    (s : PState) (order : List Nat) (h : phaseStart (loaded texts) opts plug = some (s, order))
+    (fuel2 : Nat) (mods2 : Array Nat) (s2 : PState)
+    (hforest : s2.forest = s.forest) (hpend : ∀ id a, a ∈ s2.pendingOf id ↔ a ∈ s.pendingOf id)
+    (hn2 : NodupPending s2) (hcov2 : Cover s2 mods2) (hfuel2 : mu s2 < fuel2)
+    (hbodies : ∀ id, ∀ a ∈ s.pendingOf id, a.allErrors = []) :
+    let fuel := s.pending.foldl (fun n p => n + p.2.length) 0 + 2
+    (∀ er ∈ allErrs (augmentLoop (loaded texts) fuel order.toArray s).2.forest, er.cls ≠ "duplicate-node") →
+    (∀ er, er ∈ allErrs (augmentLoop (loaded texts) fuel2 mods2 s2).2.forest ↔
+      er ∈ allErrs (augmentLoop (loaded texts) fuel order.toArray s).2.forest) ∧
+    canonErrs (allErrs (augmentLoop (loaded texts) fuel2 mods2 s2).2.forest) =
+      canonErrs (allErrs (augmentLoop (loaded texts) fuel order.toArray s).2.forest) ∧
+    (∀ er ∈ allErrs (augmentLoop (loaded texts) fuel2 mods2 s2).2.forest, er.cls ≠ "duplicate-node") :=
+  augment_error_list_order_independent_processAll _ opts plug (loadedShape_loadTexts texts)
+    (augPosDistinct_of_loadTexts texts hadm) hplain s order h fuel2 mods2 s2 hforest hpend hn2 hcov2 hfuel2 hbodies
+
 /-! ### non-vacuity: the input predicates hold of a concrete two-module set with an augment -/
 section Examples
 open Goyang.Props.C04.Ex
@@ -520,6 +677,61 @@ example : let root := Lemmas.AugmentExamples.dir "a" [Lemmas.AugmentExamples.dir
 entry carries an error of its own) holds of the two-module example -/
 example : ((phaseStart reg2 {} plug).map fun x => x.1.pending.all fun p => p.2.all fun a => a.allErrors.isEmpty) =
     some true := by decide +kernel
+
+/-! ### a registry loaded from a text: the hypotheses of the `_loadTexts` theorems hold -/
+
+/-- `module b{namespace u;prefix b;container c{}augment /b:c{leaf w{type string;}}` ⏎ ⇥
+`augment /b:c{leaf v{type string;}}}`: two augment statements with the same argument, the second on
+line 2 behind a tab. -/
+def textB : List Char :=
+  ['m', 'o', 'd', 'u', 'l', 'e', ' ', 'b', '{', 'n', 'a', 'm', 'e', 's', 'p', 'a', 'c', 'e', ' ', 'u', ';',
+   'p', 'r', 'e', 'f', 'i', 'x', ' ', 'b', ';', 'c', 'o', 'n', 't', 'a', 'i', 'n', 'e', 'r', ' ', 'c', '{',
+   '}', 'a', 'u', 'g', 'm', 'e', 'n', 't', ' ', '/', 'b', ':', 'c', '{', 'l', 'e', 'a', 'f', ' ', 'w', '{',
+   't', 'y', 'p', 'e', ' ', 's', 't', 'r', 'i', 'n', 'g', ';', '}', '}', '\n', '\t', 'a', 'u', 'g', 'm', 'e',
+   'n', 't', ' ', '/', 'b', ':', 'c', '{', 'l', 'e', 'a', 'f', ' ', 'v', '{', 't', 'y', 'p', 'e', ' ', 's',
+   't', 'r', 'i', 'n', 'g', ';', '}', '}', '}']
+
+def textsB : List (List UInt8 × List UInt8) := [([98], Goyang.Props.C02.utf8 textB)]
+
+set_option maxRecDepth 100000 in
+example : AdmissibleTexts textsB := by
+  intro nt hnt
+  simp only [textsB, List.mem_singleton] at hnt
+  subst hnt
+  exact ⟨textB, rfl, by decide⟩
+
+set_option maxRecDepth 100000 in
+/-- the reference reader accepts it (hypothesis of `sibling_positions_distinct`), with 18 + 17 + 1 tokens
+(hypothesis of `token_offsets_increase`) -/
+example : (Spec.Parse.parse textB).isSome = true ∧ ((Spec.Parse.tokenize textB).map List.length) = some 44 :=
+  ⟨by decide, by decide⟩
+
+set_option maxRecDepth 100000 in
+/-- `Modules.Parse` accepts it; the two augment statements stand at 1:44 and 2:2 -/
+example : ((loaded textsB).mods.map fun m => (m.stmt.all "augment").map fun s => (s.line, s.col, s.arg)) =
+    [[(1, 44, "/b:c"), (2, 2, "/b:c")]] := by decide +kernel
+
+theorem plainAbsArg_example_b : PlainAbsArg "/b:c" := by
+  have hs : "/b:c".splitOn "/" = ["", "b:c"] := by
+    rw [Lemmas.Find.slash_eq, Lemmas.Find.splitOn_char]; decide
+  unfold PlainAbsArg
+  rw [hs]
+  exact ⟨rfl, by decide⟩
+
+set_option maxRecDepth 100000 in
+example : AugArgsPlain (loaded textsB) := by
+  intro m hm s hs
+  have hall : ∀ m ∈ (loaded textsB).mods, ∀ s ∈ m.stmt.all "augment", s.arg = "/b:c" := by decide +kernel
+  rw [hall m hm s hs]
+  exact plainAbsArg_example_b
+
+set_option maxRecDepth 100000 in
+/-- `processAll` enters the augment phase on it with two pending augments in the row of `b`, none of
+them with an error of its own -/
+example : ((phaseStart (loaded textsB) {} plug).map fun x =>
+      (x.1.pending.map fun p => (p.1, p.2.length), x.2,
+        x.1.pending.all fun p => p.2.all fun a => a.allErrors.isEmpty)) =
+    some ([(0, 2)], [0], true) := by decide +kernel
 
 end Examples
 
